@@ -27,7 +27,7 @@ class LayoutGate(PipelineBase):
         sigs=[]
         for j in range(ns):
             lab=run.pick(n+1,'lab%d'%j)
-            mb=z3.BitVec('mb_%d'%j,8); run.solver.add(z3.ULE(mb,n))
+            mb=z3.BitVec('mb_%d'%j,8); run.add(z3.ULE(mb,n))
             sigs.append(SigD(lab if lab<n else UNKNOWN,mb,z3.Bool('in_%d'%j),z3.Bool('ov_%d'%j)))
         dirs={():[]}
         steps=[]
